@@ -125,12 +125,35 @@ def handleGenes (j : Json) : R Json := do
                                ("cdss", jArr (st.cdss.map fun c => jArr [jS c.1, locToJson c.2]))]),
                ("spec", spec), ("scope", toJson true)]
 
+def genesSpec (implJ : Json) : R Json :=
+  match implJ with
+  | .null => pure Json.null
+  | _ => do
+    let cdss ← listOf (fun c => do return ((← asChars (← idx c 0)), (← locOfJson (← idx c 1)))) implJ
+    pure (jObj [("names_distinct", toJson (IdSpec.pairwiseDistinct (cdss.map (·.1)))),
+                ("locs_distinct", toJson (IdSpec.pairwiseDistinct (cdss.map (·.2)))),
+                ("safe", toJson (cdss.all fun c => IdSpec.geneSafe c.1)),
+                ("ok", toJson (IdSpec.genesOk cdss))])
+
+def handleBio (j : Json) : R Json := do
+  let feats ← listOf (fun f => do
+    return ({ isCds := ← boolF f "cds", loc := ← locOfJson (← fld f "loc"),
+              locusTag := ← optChars (fldD f "locus_tag" Json.null), gene := ← optChars (fldD f "gene" Json.null),
+              proteinId := ← optChars (fldD f "protein_id" Json.null), pseudo := boolFD f "pseudo" false } : BioFeat))
+    (← fld j "feats")
+  let model := match fromBiopython {} feats with
+    | .ok s => jObj [("cdss", jArr (s.cdss.map fun c => jArr [jS c.1, locToJson c.2])),
+                     ("genes", jArr (s.genes.map fun g => jS g.1))]
+    | .error e => jObj [("err", Json.str (gerrStr e))]
+  return jObj [("model", model), ("spec", ← genesSpec (fldD j "impl" Json.null)), ("scope", toJson true)]
+
 def handle (j : Json) : R Json := do
   match (← strF j "kind") with
   | "ids" => handleIds j
   | "fix" => handleFix j
   | "unique" => handleUnique j
   | "genes" => handleGenes j
+  | "bio" => handleBio j
   | k => throw s!"C16: unknown kind {k}"
 
 end ASV.Drv.C16
